@@ -154,6 +154,7 @@ def check(prog: Program, tier: str) -> Result:
     plumbing(prog, res, "R8.1", ("preserve",))
     stats = site_obligations(prog, res, "R8.2", need_bare=True)
     _producer(prog, res)
+    _producer_star_imports(prog, res)
     _magic_methods(prog, res)
     _magic_functions_outside_classes(prog, res)
     # R8.5: the names used by the preserved files are READ FROM DISK for every run: no memo between the files and `preserve`
@@ -356,6 +357,33 @@ def _magic_functions_outside_classes(prog: Program, res: Result) -> None:
         res.undecided("R8.4", fn.loc(), fn.fq, "deletion of a function without uses", "deletion site not found")
 
 
+def _producer_star_imports(prog: Program, res: Result) -> None:
+    """R8.3 (star imports): after `from lib import *` every bare name of the preserved file that it does not define itself may
+    come from lib.  The producer only records bare names that are IMPORTED names - for a star import that set holds just '*'.
+    Obligation: the producer has a branch for the alias '*' under which bare names (`.id` of Name nodes) are recorded without
+    the imported-names filter."""
+    fn = prog.func("main", "_used_names_in_file")
+    star_tests = [t for t in ast.walk(fn.node) if isinstance(t, ast.Compare) and any(isinstance(c, ast.Constant) and c.value == "*" for c in [t.left] + t.comparators)]
+    ok = False
+    where = fn.node
+    for t in star_tests:
+        # the statement(s) governed by the test
+        host = parent(t)
+        while host is not None and not isinstance(host, (ast.If, ast.comprehension)) and host is not fn.node:
+            host = parent(host)
+        region = host.body if isinstance(host, ast.If) else []
+        for st in region:
+            for c in ast.walk(st):
+                if isinstance(c, ast.Call) and isinstance(c.func, ast.Attribute) and c.func.attr in ("extend", "update", "append", "add") and c.args:
+                    txt = norm(c.args[0])
+                    if ".id" in txt and "ast.Name" in txt and " if " not in txt.split(" for ", 1)[-1]:
+                        ok, where = True, c
+    res.decide(ok, "R8.3", fn.loc(where), fn.fq, "bare names after a star import",
+               "with `from m import *` all bare names of the file are recorded" if ok else
+               "after `from lib import *` the names the preserved file uses bare are not recorded (the imported names are just '*'): the library loses every function, "
+               "class and variable the client uses through the star import")
+
+
 def _producer(prog: Program, res: Result) -> None:
     fn = prog.func("main", "_used_names_in_file")
     # names.append(node.attr) must depend on nothing but isinstance(node, ast.Attribute)
@@ -425,6 +453,8 @@ def _producer(prog: Program, res: Result) -> None:
 from ..selftest import Variant  # noqa: E402
 
 VARIANTS = [
+    Variant("star-import-of-the-client-ignored", "FIRE", "main",
+            "        if any(alias.name == \"*\" for alias in node.names):\n            # Whatever is not defined here may come from the star import\n            names.extend(name.id for name in core.walk(ast_root, ast.Name))\n", "", "R8.3"),
     Variant("module-level-dunder-counts-as-unused", "FIRE", "fixes", "        elif parsing.is_magic_method(def_node):\n            continue  # A module level __getattr__ or __dir__ is called by the import system\n", "", "R8.4"),
     Variant("unused-imports-ignore-preserve", "FIRE", "fixes", "    unused_imports = set(_get_unused_imports(root)) - set(preserve)\n", "    unused_imports = set(_get_unused_imports(root))\n", "R8.6"),
     Variant("unused-imports-called-without-preserve", "FIRE", "main", "            source = fixes.remove_unused_imports(source, preserve=preserve)", "            source = fixes.remove_unused_imports(source)", "R8.1"),
